@@ -218,6 +218,15 @@ where
         let (start, end): (T, T) = if rng.chance(1, 40) {
             // the whole type (only a bounded number of steps from either end is ever taken)
             (T::MINV, T::MAXV)
+        } else if rng.chance(1, 16) {
+            // two independent anchors: wide spans that are not the whole type (MIN..0, -1..=MAX, ...)
+            // as well as far-inverted ranges; only a bounded number of steps is ever taken
+            let anchors = T::anchors();
+            let a = *rng.pick(&anchors);
+            let b = *rng.pick(&anchors);
+            let a = a.offset(rng.range(0, 4) as i64 - 2).unwrap_or(a);
+            let b = b.offset(rng.range(0, 4) as i64 - 2).unwrap_or(b);
+            (a, b)
         } else if T::SMALL && rng.chance(1, 2) {
             (T::from_index(rng.below(256)), T::from_index(rng.below(256)))
         } else {
